@@ -104,9 +104,12 @@ PROPS["C15"] = {
                 ["NsyncVerif.Futex." + t for t in ["C12_timeout_real", "C12_post_kept_on_timeout", "C12_future_timed_wait_returns"]],
     "layers": ["deadline"], "engine": "realplat",
     "realplat": True,
-    "oracles": {"deadline"},
+    "family_layers": {"timed_contended": ["cv", "muc", "mux"], "cancel_only": ["cv", "muc", "mux"], "waitn_rep": ["waitn", "cv", "mux"]},
+    "plan": {"quick": [("timed_contended", 120, 10), ("waitn_rep", 40, 6)], "thorough": [("timed_contended", 1500, 20), ("waitn_rep", 400, 12)]},
+    "harness_args": ["checkplain=1"],
+    "oracles": {"deadline", "stuck", "steplimit", "early-timeout", "bad-result", "muwait-result", "crash", "panic", "waitn-ready", "waitn-missed"},
     "level_text": "Kernel-checked theorems over the Deadline/Time/Futex models: for every deadline value the timespec handed to the kernel satisfies the futex contract (no EINVAL, so the ASSERT cannot fire), a pre-epoch deadline is clamped to an instant that is still expired and the library's re-check then reports ETIMEDOUT, no_deadline (and only it) means no timeout, classification expired/future agrees with integer time, nsync_wait_n short-circuits exactly the deadlines at or before zero; no early timeout and an expired deadline needs no wake-up for the semaphore (C12 theorems). Tied to the code by the real-platform probe: every timed entry point x the property's boundary set of deadlines x {C build, C++ build}, one child process per case on the real futex/kernel; the observed outcome class (prompt timeout / timeout at deadline / event / crash / hang) must equal the model's.",
-    "level_note": "The futex(2) timeout contract is an assumption, re-validated against the running kernel by the probe on every run. The probe uses wall-clock time: generous margins (prompt < 1 s, future deadline = now + 300 ms, hang = 4 s). Entry-point control flow above the semaphore is tied by the probe and by the lockstep layers of C04/C05/C10/C11, not re-proved here.",
+    "level_note": "The futex(2) timeout contract is an assumption, re-validated against the running kernel by the probe on every run. The probe uses wall-clock time: generous margins (prompt < 1 s, future deadline = now + 300 ms, hang = 4 s). Entry-point control flow above the semaphore is tied by the probe, by this check's own contended tier under the deterministic scheduler (family timed_contended: deadlines expiring while another thread holds the mutex and the condition flips back, zero / pre-epoch / past / future values; lockstep through CvFix and MuC, oracles stuck / steplimit / early-timeout) and by the lockstep layers of C04/C05/C10/C11, not re-proved here.",
 }
 
 PROPS["C03"] = {
@@ -192,14 +195,15 @@ PROPS["C04"] = {
 PROPS["C08"] = {
     "imports": ["NsyncVerif.Props.C08"],
     "theorems": ["Note." + t for t in ["C08_flag_monotone", "C08_flag_monotone_run", "C08_notified_monotone", "C08_monotone", "C08_observed_notified", "C08_anc_ever",
-                 "C08_sound", "C08_notify_post", "C08_expiry_min_partial", "C08_expiry_min_witness", "C08_complete_witness", "C08_complete_partial",
+                 "C08_sound", "C08_notify_post", "C08_expiry_min", "C08_expiry_min_ret", "C08_creation_path", "C08_creation_ghosts", "C08_expiry_min_full_holds",
+                 "C08_expiry_min_old_code_witness", "C08_complete_witness", "C08_complete_partial",
                  "C08_stack_notified", "C08_unaffected_partial", "C08_ancestors_unaffected"]],
     "layers": ["note", "mux"],
-    "oracles": {"stuck", "expiry-min", "expiry-min-born-notified", "notify-post", "note-wait", "early-timeout", "panic", "crash", "dead-object"},
+    "oracles": {"stuck", "expiry-min", "notify-post", "note-wait", "early-timeout", "panic", "crash", "dead-object"},
     "plan": {"quick": [("note", 150, 8), ("note_f4", 10, 8)], "thorough": [("note", 1500, 16), ("note_f4", 60, 16)]},
     "harness_args": ["checkplain=1"],
-    "level_text": "Kernel-checked theorems over the Note model (note.c and the wait path of nsync_note_wait statement by statement on a forest with parent/children/disconnecting/waiters, note mutexes abstract; unbounded notes, threads, depth, steps): the flag and the API-level 'notified' are one-way, every observer history is monotone, a notified note has a cause (notify called or a deadline passed on itself or an ancestor-at-some-time), notify's post-condition, ancestors are never affected, everything on a notifier's recursion stack is notified. Tied to the code by lockstep replay including a digest of the REAL note forest after every note API return, which the model must reproduce.",
-    "level_note": "Two clauses are FALSE on the current code and carried as known findings with Lean witnesses and harness replays: completeness (F4: a free of a note with children concurrent with a notification of an ancestor — C08_complete_partial holds for executions without such an adoption under a notified parent; negation proved on a concrete trace) and nsync_note_expiry = minimum (F5: notes born notified — C08_expiry_min_partial under 'not born notified'). C08_unaffected is proved w.r.t. the creation-time path (partial; the current-tree statement is kept as a def). The waiter-release half of completeness for descendants is not proved. Monotone clock assumed.",
+    "level_text": "Kernel-checked theorems over the Note model (note.c and the wait path of nsync_note_wait statement by statement on a forest with parent/children/disconnecting/waiters, note mutexes abstract; unbounded notes, threads, depth, steps): the flag and the API-level 'notified' are one-way, every observer history is monotone, a notified note has a cause (notify called or a deadline passed on itself or an ancestor-at-some-time), notify's post-condition, ancestors are never affected, everything on a notifier's recursion stack is notified, and nsync_note_expiry returns the minimum of the creation deadlines on the creation-time path to the root for EVERY note, born notified or not (C08_expiry_min, C08_expiry_min_ret — for the code as repaired by afe43b7). Tied to the code by lockstep replay including a digest of the REAL note forest after every note API return, which the model must reproduce.",
+    "level_note": "One clause is FALSE on the current code and carried as a known finding with a Lean witness and harness replays: completeness (F4: a free of a note with children concurrent with a notification of an ancestor — C08_complete_partial holds for executions without such an adoption under a notified parent; negation proved on a concrete trace). The expiry clause was false on the pinned tree (F5, notes born notified) and is repaired in /repo (afe43b7); what the old code did is recorded by C08_expiry_min_old_code_witness and the corpus regression. The expiry clause is about CREATION-time ancestors (C08_creation_path): nsync_note_free re-parents children but never changes an expiry time. C08_unaffected is proved w.r.t. the creation-time path (partial; the current-tree statement is kept as a def). The waiter-release half of completeness for descendants is not proved. Monotone clock assumed.",
 }
 PROPS["C09"] = {
     "imports": ["NsyncVerif.Props.C09"],
@@ -264,10 +268,10 @@ PROPS["C05"] = {
     "theorems": ["NsyncVerif.CvFix." + t for t in ["C05_result_is_outcome", "C05_timedout", "C05_cancelled", "C05_no_resleep", "C05_not_sleeping"]] +
                 [MC + t for t in ["C05_mode", "C05_mode_recorded", "C05_mu_wait_0", "C05_timedout", "C05_cancelled", "C05_no_resleep_partial", "C05_timed_p_deadline", "C05_no_resleep_full_refuted"]],
     "layers": ["cv", "mux"],
-    "family_layers": {"cv": ["cv", "mux"], "cv_raw": ["cv", "mux"], "muwait": ["muc", "mux"], "muc": ["muc", "mux"], "cancel_only": ["cv", "muc", "mux"]},
+    "family_layers": {"cv": ["cv", "mux"], "cv_raw": ["cv", "mux"], "muwait": ["muc", "mux"], "muc": ["muc", "mux"], "cancel_only": ["cv", "muc", "mux"], "timed_contended": ["cv", "muc", "mux"]},
     "oracles": {"early-timeout", "bad-cancel", "bad-result", "muwait-result", "swallowed-wakeup", "exclusion", "exclusion-ann", "stuck", "steplimit", "panic", "crash", "dead-object"},
-    "plan": {"quick": [("cv", 120, 8), ("cv_raw", 40, 8), ("muwait", 100, 8), ("muc", 80, 6), ("cancel_only", 120, 10)],
-             "thorough": [("cv", 1200, 16), ("cv_raw", 400, 16), ("muwait", 1000, 16), ("muc", 800, 12), ("cancel_only", 1200, 20)]},
+    "plan": {"quick": [("cv", 120, 8), ("cv_raw", 40, 8), ("muwait", 100, 8), ("muc", 80, 6), ("cancel_only", 120, 10), ("timed_contended", 100, 10)],
+             "thorough": [("cv", 1200, 16), ("cv_raw", 400, 16), ("muwait", 1000, 16), ("muc", 800, 12), ("cancel_only", 1200, 20), ("timed_contended", 1000, 20)]},
     "harness_args": ["checkplain=1"],
     "level_text": "Kernel-checked theorems. cv half (CvFix model of cv.c + sem_wait.c): the value returned by nsync_cv_wait_with_deadline is the recorded outcome of the sleep (C05_result_is_outcome); ETIMEDOUT only with the deadline reached on the model clock, ECANCELED only with the cancel note notified (C05_timedout, C05_cancelled); once the outcome is non-zero the thread performs no further semaphore wait in this call before re-acquiring the mutex (C05_no_resleep, C05_not_sleeping). mu_wait half (MuC model of mu_wait.c on top of the mutex core): the call returns holding the mutex in the mode it was called with (C05_mode), returns 0 exactly when the condition is true at the return (C05_mu_wait_0), ETIMEDOUT / ECANCELED only for the stated reason (C05_timedout, C05_cancelled), a timed P never outlasts the deadline (C05_timed_p_deadline), and after a non-zero outcome no P is issued in that pass of the wait loop (C05_no_resleep_partial). Tied to the code by lockstep (cv / cv_raw families through CvFix, muwait / muc families through MuC, with cancel notes fresh / already notified / expiring, reader and writer mode) and by the interpreter's assertions on every wait return (shadow lock mode, virtual clock vs deadline, note flag, value of the condition).",
     "level_note": "The literal reading 'no further semaphore wait' is REFUTED for nsync_mu_wait_with_deadline (C05_no_resleep_full_refuted: a timed-out waiter re-acquires through lock_slow and may sleep there; with the condition false it goes round the loop again with an already expired deadline) — this is consistent with the property's own wording ('returns as soon as the mutex can be re-acquired'), so it is not a finding. 'Holding the lock in the same mode' for the cv half rests on the mutex layer (C01/C02) and the interpreter's shadow mode. The cancel note is abstract in both models. Fair termination is a paper step; termination of every explored execution is checked (oracle stuck).",
@@ -280,8 +284,8 @@ PROPS["C06"] = {
     "layers": ["muc", "mux"],
     "tie": ["NsyncVerif.Proofs.TieConsts"],
     "oracles": {"cond-under-lock", "muwait-result", "stuck", "steplimit", "panic", "crash", "exclusion", "exclusion-ann", "early-timeout", "bad-cancel", "bad-result"},
-    "plan": {"quick": [("muc", 160, 8), ("muwait", 100, 8)],
-             "thorough": [("muc", 1600, 16), ("muwait", 1000, 16)]},
+    "plan": {"quick": [("muc", 160, 8), ("muwait", 100, 8), ("timed_contended", 80, 10)],
+             "thorough": [("muc", 1600, 16), ("muwait", 1000, 16), ("timed_contended", 800, 20)]},
     "level_text": "Kernel-checked theorems over the MuC model (mu.c + mu_wait.c statement by statement: condition records, same-condition rings, unlock_slow's scan with condition evaluation, MU_CONDITION / MU_ALL_FALSE hints, timeouts and cancellations, unlock_without_wakeup; any number of threads): every condition is evaluated by a thread that owns a share of the lock or the writer bit (unlock_slow's temporary writer lock), never concurrently with another thread's write critical section, and it is the condition the queue record prescribes with the value the protected data gives (C06_cond_under_lock); the lock / spinlock / queue invariants of the extended model (C06_inv_lock, C06_inv_spin, C06_inv_queue); MU_CONDITION clear implies no queued waiter has a condition (C06_hint_partial); the skip over a same-condition ring passes only waiters whose condition denotes the predicate just found false, given the ring invariant (C06_samecond_ring_partial). Tied to the code by lockstep replay of the muc / muwait families (2..4 waiters drawn from identical / eq-equivalent / different conditions, reader and writer mode, cv waiters, timeouts and cancellations on the same mutex, unlock_without_wakeup) through the MuC acceptor — which checks, on every explored execution, which conditions the scan evaluates, which waiters it wakes and every word value — and by the interpreter's oracles: termination of every waiter whose condition was made true (stuck), no evaluation concurrent with a writer (cond-under-lock).",
     "level_note": "PARTIAL: the liveness core of the statement — no waiter whose condition is true is left asleep by nsync_mu_unlock (C06_no_missed_cond_full, C06_no_stuck_state_full), the MU_ALL_FALSE half of the hint invariant (C06_hint_full) and the soundness of unlock_without_wakeup (C06_without_wakeup_sound_full) are stated as definitions but NOT proved; they need the ring invariant as an inductive invariant. For these clauses the check decides by lockstep plus the stuck oracle over the explored schedules only. 'Rings are maximal runs' is refuted (C06_samecond_ring_full_refuted) — harmless: the scan only needs soundness of the skip.",
 }
